@@ -253,7 +253,14 @@ class Builder:
                     break
             vn, vattr, vty = variants[pick]
             self.path.append(vn)
+            # inside a non-canonical arm one further deviation is free (arms are small; "other arm + its optional
+            # payload absent" is one of the commonest shapes of real traffic)
+            saved = self.budget
+            if pick != 0 and self.canon is not None:
+                self.budget += 1
             v, p = self.field(vn, vattr, vty, depth)
+            if pick != 0 and self.canon is not None:
+                self.budget = min(saved, self.budget)
             self.path.pop()
             if p[0] == "field" and len(p) < 4:
                 p = p + ("explicit",)       # a oneof member is written even when it holds the default
@@ -362,6 +369,20 @@ def encode_field(p, m):
     raise ValueError(k)
 
 
+def oneof_skeleton(v):
+    """the oneof arms of a wire message, in structure order (repeated fields: per element)"""
+    v = deref(v)
+    if isinstance(v, EnumV):
+        if "::Inner" in (v.ty or "") or v.ty == "Inner":
+            return (v.variant,) + tuple(x for c in v.fields for x in oneof_skeleton(c.v))
+        return tuple(x for c in v.fields for x in oneof_skeleton(c.v))
+    if isinstance(v, Agg):
+        return tuple(x for c in v.fields for x in oneof_skeleton(c.v))
+    if isinstance(v, VecV):
+        return tuple(x for c in v.items for x in oneof_skeleton(c.v))
+    return ()
+
+
 # ------------------------------------------------------------------ one type
 
 def run_type(prog, defs, ty, wire, repo_file):
@@ -380,6 +401,7 @@ def run_type(prog, defs, ty, wire, repo_file):
         w, plan = b.message(wire)
         ctx.size = b.n
         ctx.plan = plan
+        ctx.wire_in = M.deep_copy(w)
         ctx.lens = b.lens
         ctx.stage = "decode1"
         r1 = eng.call_named(try_from, [w], None)
@@ -390,6 +412,7 @@ def run_type(prog, defs, ty, wire, repo_file):
             return ("accepted",)
         ctx.stage = "encode"
         w1 = eng.call_named(from_, [M.deep_copy(v1)], None)
+        ctx.wire_out = w1
         ctx.stage = "decode2"
         r2 = eng.call_named(try_from, [w1], None)
         if r2.variant != "Ok":
@@ -474,6 +497,17 @@ def run_type(prog, defs, ty, wire, repo_file):
             report(res, "the receiver rejects what the sender produced from a value it accepted")
             return
         _, v1, v2 = res.value
+        # the sender's encoder puts the decoded value back into the oneof arms the message had (a decoder arm
+        # that builds the wrong variant yields a consistent but different value: v1 == v2 would not see it)
+        out["obligations"] += 1
+        a, b = oneof_skeleton(res.ctx.wire_in), oneof_skeleton(res.ctx.wire_out)
+        # only a change of the *multiset* of arms with the count unchanged is a finding: set-valued repeated fields
+        # legitimately drop duplicate elements and map-valued ones may reorder
+        if len(a) != len(b) or sorted(a) == sorted(b):
+            out["discharged"] += 1
+        else:
+            out["obligations"] -= 1
+            report(res, "a oneof arm changes in a wire round trip (%s -> %s)" % (a, b))
         out["obligations"] += 1
         try:
             eq = M.eq_formula(eng, v1, v2, 64)
@@ -558,8 +592,10 @@ def load(regenerate=True):
 
 def set_tier(tier):
     global REPEAT_MAX, BUDGET
+    global MAX_PATHS
     REPEAT_MAX = 1 if tier == "quick" else 2
     BUDGET = 2 if tier == "quick" else 3
+    MAX_PATHS = 6000 if tier == "quick" else 40000
 
 
 def compiled(prog, ty, wire):
